@@ -101,7 +101,11 @@ StepLadder(e) ==
                THEN {e.owner \o ".LadderShrinks"} ELSE {}
     IN  Report(e, bad) /\ UNCHANGED h
 
-StepShift(e) == Report(e, IF e.de15 > ShiftMax THEN {"C17.ShiftEq"} ELSE {}) /\ UNCHANGED h
+\* de15: exact-increment pair (dyadic grids); dg15: generic float shift whose rounding perturbs every increment by at
+\* most 1e-10 relative (-1: not applicable): a stable solve may amplify that to 1e-8 of the window, no more
+ShiftGenericMax == 10000000
+StepShift(e) == Report(e, (IF e.de15 > ShiftMax THEN {"C17.ShiftEq"} ELSE {})
+                          \cup (IF e.dg15 > ShiftGenericMax THEN {"C17.ShiftGeneric"} ELSE {})) /\ UNCHANGED h
 
 TNext == /\ l <= Len(Trace)
          /\ LET e == Trace[l]
